@@ -32,7 +32,7 @@ PY = "/venv/bin/python"
 REPO = os.path.realpath(os.environ.get("VERIF_REPO", "/repo"))
 WORLD = os.path.join(HERE, "world.py")
 SCRATCH_TOP = os.path.join(os.environ.get("VERIF_TMP", "/tmp"), f"mdsim-{os.getpid()}")
-WORLD_TIMEOUT = int(os.environ.get("VERIF_WORLD_TIMEOUT", "1200"))
+WORLD_TIMEOUT = int(os.environ.get("VERIF_WORLD_TIMEOUT", "3000"))
 NPROC = int(os.environ.get("VERIF_JOBS", "0")) or min(16, os.cpu_count() or 4)
 
 _counter = [0]
